@@ -88,7 +88,7 @@ class ContentEvaluationResultSchema(Schema):
         keys=fields.String(allow_none=False),
         values=fields.String(allow_none=False),
         required=False,
-        load_default={},
+        load_default=dict,  # a new dictionary for every loaded result (a single {} would be shared between all of them)
         allow_none=True,
     )
     id = fields.UUID(required=False, dump_default=False, load_default=None)
